@@ -59,7 +59,7 @@ type c06Result struct {
 	panic_ string
 }
 
-func c06Exec(b []byte, ex *C06Extra, nameArgs bool, mode string) (res c06Result) {
+func c06Exec(b []byte, ex *C06Extra, nameArgs bool, mode string, shared ...*stack.Opts) (res c06Result) {
 	m, seedS, _ := strings.Cut(mode, "@")
 	var seed uint64
 	fmt.Sscan(seedS, &seed)
@@ -70,7 +70,12 @@ func c06Exec(b []byte, ex *C06Extra, nameArgs bool, mode string) (res c06Result)
 			res.panic_ = fmt.Sprint(p)
 		}
 	}()
-	opts := &stack.Opts{LocalGOROOT: ex.GOROOT, LocalGOPATHs: ex.GOPATHs, NameArguments: nameArgs, GuessPaths: ex.Guess, AnalyzeSources: ex.Guess && ex.Analyze}
+	opts := c06Opts(ex, nameArgs)
+	if len(shared) > 0 {
+		// one options value for several calls, as the command uses one for all
+		// the dumps of a stream
+		opts = shared[0]
+	}
 	s, _, err := stack.ScanSnapshot(bytes.NewReader(b), io.Discard, opts)
 	res.snap = s
 	res.err = ErrKey(err)
@@ -93,6 +98,10 @@ func c06Exec(b []byte, ex *C06Extra, nameArgs bool, mode string) (res c06Result)
 	_ = s.ToHTML(&h, "")
 	res.shtml = maskHTML(h.Bytes())
 	return
+}
+
+func c06Opts(ex *C06Extra, nameArgs bool) *stack.Opts {
+	return &stack.Opts{LocalGOROOT: ex.GOROOT, LocalGOPATHs: ex.GOPATHs, NameArguments: nameArgs, GuessPaths: ex.Guess, AnalyzeSources: ex.Guess && ex.Analyze}
 }
 
 func bucketIDs(a *stack.Aggregated) string {
@@ -186,6 +195,9 @@ func CheckC06(c *Case, cov *Cov) []*Violation {
 	if c.Mode == "ppmap" {
 		return checkPPMap(c, cov)
 	}
+	if c.Mode == "prochist" {
+		return checkProcHist(c, cov)
+	}
 	var ex C06Extra
 	if err := json.Unmarshal(c.Extra, &ex); err != nil {
 		panic(err)
@@ -237,16 +249,18 @@ func c06Check(c *Case, ex *C06Extra, cov *Cov) []*Violation {
 	// history independence: the first order again, after everything else ran
 	// (the other map orders of this input, and other inputs over the same tree)
 	if len(ex.Modes) > 0 {
+		// the other inputs and the repetition share ONE options value
+		hopts := c06Opts(ex, c.NameArgs)
 		for _, od := range ex.Others {
 			ob := gen.Render(od).Bytes
-			o := c06Exec(ob, ex, c.NameArgs, ex.Modes[0])
+			o := c06Exec(ob, ex, c.NameArgs, ex.Modes[0], hopts)
 			if cov != nil {
 				cov.Evaluations++
 				cov.AddDigest(o.digest())
 				cov.Probe("history:other-input-between")
 			}
 		}
-		again := c06Exec(b, ex, c.NameArgs, ex.Modes[0])
+		again := c06Exec(b, ex, c.NameArgs, ex.Modes[0], hopts)
 		for _, v := range c06Compare(c, &ref, &again, ex.Modes[0], ex.Modes[0]+" (repeated after the other executions)") {
 			v.Clause = "C06.history"
 			if !seen[v.Clause] {
@@ -359,12 +373,13 @@ func init() {
 		Run:   RunC06,
 		Check: CheckC06,
 		Quick: 1200, Thorough: 60000,
-		Rule:            "one evaluation = ScanSnapshot + Aggregate at all 4 similarity levels + both ToHTML renderings of one generated dump (groups of goroutines with equal frames and differing arguments/sleep/lock so that buckets merge and tie; optionally a per-run directory tree with overlapping GOPATH roots and nested go.mod roots and GuessPaths on) under one simulator-chosen map iteration order; per input the orders sorted, reverse, two rotations, three seeded permutations (each with its own insertion-visit coins) and the runtime's own order are compared, then the first order again (history); distinct_nontrivial = distinct (input, order) pairs in runs where some range-over-map iterated over >= 2 entries; a sample of runs is re-executed in fresh processes (other GOMAXPROCS) and the result digests compared; the pp binary built from the same overlay is compared byte-wise across orders in the ppmap stage",
+		Rule:            "one evaluation = ScanSnapshot + Aggregate at all 4 similarity levels + both ToHTML renderings of one generated dump (groups of goroutines with equal frames and differing arguments/sleep/lock so that buckets merge and tie; optionally a per-run directory tree with overlapping GOPATH roots and nested go.mod roots and GuessPaths on) under one simulator-chosen map iteration order; per input the orders sorted, reverse, two rotations, three seeded permutations (each with its own insertion-visit coins) and the runtime's own order are compared, then the first order again (history); distinct_nontrivial = distinct (input, order) pairs in runs where some range-over-map iterated over >= 2 entries; a sample of runs is re-executed in fresh processes (other GOMAXPROCS) and the result digests compared; the pp binary built from the same overlay is compared byte-wise across orders in the ppmap stage; the command's loop (internal.process) is compared between the first call of a fresh process and the same call after earlier calls with other options in the command-loop-history stage",
 		Assumptions:     []string{"map iteration order is controlled by a build-time rewrite of every range-over-map in package stack (cmd/maprewrite, go build -overlay); /repo itself is not modified", "the directory tree is fixed environment, not a fault", "the HTML lines 'Created on' and 'GOMAXPROCS' are masked"},
-		Real:            []string{"stack.ScanSnapshot (incl. guessPaths/findRoots/updateLocations, nameArguments, augment)", "Snapshot.Aggregate", "Aggregated.ToHTML / Snapshot.ToHTML", "pp binary (ppmap stage)"},
+		Real:            []string{"stack.ScanSnapshot (incl. guessPaths/findRoots/updateLocations, nameArguments, augment)", "Snapshot.Aggregate", "Aggregated.ToHTML / Snapshot.ToHTML", "pp binary (ppmap stage)", "internal.process (command-loop-history stage, driver overlaid into package internal)"},
 		Stubs:           []string{"map iteration order (verifIter)", "directory tree built per run"},
 		ShrinkBudget:    600,
 		Post:            postC06,
+		Posts:           []func(seed uint64, tier string, cov *Cov) ([]*Violation, map[string]any, error){postC06Hist},
 		IsolationClause: "C06.process",
 	})
 }
